@@ -12,7 +12,7 @@
 (* the specification's step" and "the logged state satisfies the            *)
 (* property's predicate".  Empty set = the event conforms.                 *)
 (***************************************************************************)
-EXTENDS Observers
+EXTENDS Graphs
 
 Tag(c, x) == <<c, ToString(x)>>
 C(c) == <<c, "">>
@@ -41,10 +41,32 @@ StateClauses(I, F, post) ==
   \cup If(~post.instok, {C("C14:instance-modified")})
 
 (* --- built-in observers: property-level predicates on the LOGGED observers -- *)
-SameObs(a, b) == a.t = b.t /\ \A k \in (DOMAIN a \cap DOMAIN b) \ {"t", "name", "comps", "cols"} : a[k] = b[k]
+SameObs(a, b) == a.t = b.t /\ \A k \in (DOMAIN a \cap DOMAIN b) \ {"t", "name", "comps", "cols", "edges", "graph_nodes"} : a[k] = b[k]
 ObsListDiff(name, exp, got) ==
     IF Len(exp) # Len(got) THEN {Tag(name, "number-of-subscribers")}
     ELSE {Tag(name, got[i].t) : i \in {k \in DOMAIN got : ~SameObs(exp[k], got[k])}}
+(* C17, on the logged residual graph (statement: positive durations) *)
+ResidualClauses(I, F, c, o) ==
+    IF ~PositiveDurations(I) THEN {} ELSE
+    LET b == o.builder  N == Len(GraphNodes(b, I))  P == GraphPairs(b, I)
+        R == Rng(o.removed)
+        remOps == {AllOpsSeq(I)[n] : n \in {k \in R : k <= NumOps(I)}}
+        unsched == UnscheduledOps(I, c.sched)
+        E == {<<o.edges[i][1], o.edges[i][2]>> : i \in DOMAIN o.edges}
+    IN If(o.nnodes # N, {C("C17:node-count")})
+  \cup If(~(CompletedOps(I, c, F) \subseteq remOps), {C("C17:completed-not-removed")})
+  \cup If(~(remOps \subseteq ScheduledOps(c.sched)), {C("C17:unscheduled-removed")})
+  \cup If(BuilderHasMachines(b) /\ \E m \in Machines(I) : NodeOfMachine(I, m) \in R /\ \E x \in unsched : m \in MSet(I, x),
+          {C("C17:machine-removed-early")})
+  \cup If(BuilderHasJobs(b) /\ \E j \in Jobs(I) : NodeOfJob(I, j) \in R /\ \E x \in unsched : x[1] = j,
+          {C("C17:job-removed-early")})
+  \cup If(\E e \in E : e[1] \in R \/ e[2] \in R, {C("C17:dangling-edge")})
+  \cup If(Rng(o.graph_nodes) # (1..N) \ R, {C("C17:mask-differs-from-graph")})
+  \cup If(E # LivePairs(P, R), {C("C17:edges-differ-from-graph")})
+  \cup If(Complete(I, c.sched) /\ o.rm_machines /\ o.rm_jobs
+          /\ (\A m \in Machines(I) : \E x \in AllOps(I) : m \in MSet(I, x)) /\ R # 1..N,
+          {C("C17:not-all-removed-at-end")})
+
 (* exp = the observer records the implementation-shaped specification expects  *)
 (* after this event: a deviation from the DEFINITION is labelled "as-modelled"  *)
 (* when the logged value is exactly the one the transcribed algorithm yields    *)
@@ -62,6 +84,7 @@ ObsStateClauses(T, post, exp) ==
           \cup If(o.t = "CompositeFeatureObserver" /\ ~CompositeOK(post.obs, o), {C("C11:composite")})
           \cup If(o.t \in {"MakespanReward", "IdleTimeReward"} /\ ~RewardsOK(I, c, o, NumScheduled(c.sched)),
                   {Tag("C13:rewards", o.t)})
+          \cup (IF IsResidual(o) THEN ResidualClauses(I, F, c, o) ELSE {})
           \cup If(o.t = "UnscheduledOperationsObserver"
                     /\ (o.dq # DequesFor(I, c) \/ o.n # Cardinality(UnscheduledOps(I, c.sched))),
                   {C("C05:unscheduled-observer")})
@@ -133,8 +156,11 @@ DispatchClauses(T, prev, ev, post) ==
         \cup HistClauses(T.kinds, prev, post, e, FALSE)
         \cup If(post.subs # prev.subs, {C("C10:subscribers-changed")})
         \cup TimeClauses(I, T.filt, s, c)
-        \cup ObsListDiff("D:drift", NotifyAll(I, c, T.filt, prev.obs, e), post.obs)
-        \cup ObsStateClauses(T, post, NotifyAll(I, c, T.filt, prev.obs, e))
+        \cup If(Len(post.obs) = Len(prev.obs) /\ \E i \in DOMAIN post.obs :
+                  IsResidual(post.obs[i]) /\ IsResidual(prev.obs[i])
+                  /\ ~(Rng(prev.obs[i].removed) \subseteq Rng(post.obs[i].removed)), {C("C17:removal-undone")})
+        \cup ObsListDiff("D:drift", NotifyAllG(I, c, T.filt, prev.obs, e), post.obs)
+        \cup ObsStateClauses(T, post, NotifyAllG(I, c, T.filt, prev.obs, e))
         ELSE {})
   \cup (IF ~ok THEN
              If(c # s, {C("C09:state-changed-on-reject")})
@@ -155,9 +181,9 @@ ResetClauses(T, prev, ev, post) ==
   \cup HistClauses(T.kinds, prev, post, <<>>, TRUE)
   \cup If(post.subs # prev.subs, {C("C10:subscribers-changed")})
   \cup StateClauses(T.inst, T.filt, post)
-  \cup ObsListDiff("D:drift-reset", ResetAll(T.inst, InitState(T.inst), T.filt, prev.obs, "deps_first"), post.obs)
+  \cup ObsListDiff("D:drift-reset", ResetAllG(T.inst, InitState(T.inst), T.filt, prev.obs, "deps_first"), post.obs)
   \cup (IF T.featcheck THEN ObsListDiff("C12:reset-differs-from-fresh", T.fresh_obs, post.obs) ELSE {})
-  \cup ObsStateClauses(T, post, ResetAll(T.inst, InitState(T.inst), T.filt, prev.obs, "deps_first"))
+  \cup ObsStateClauses(T, post, ResetAllG(T.inst, InitState(T.inst), T.filt, prev.obs, "deps_first"))
 
 QueryClauses(T, prev, ev, post) ==
        If(ev.out # "ok", {Tag("C05:query-raised", ev.q)})
@@ -286,7 +312,7 @@ CreateObsClauses(T, prev, ev, post) ==
     LET dup == ev.t \in SingletonClasses /\ \E i \in DOMAIN prev.obs : prev.obs[i].t = ev.t IN
        If(ev.out # "ok" /\ ~dup, {Tag("C11:construct-raised", <<ev.t, ev.out>>)})
   \cup If(ev.out = "ok" /\ dup, {Tag("C10:singleton-accepted", ev.t)})
-  \cup (IF ev.out = "ok" /\ ev.t # "CompositeFeatureObserver"
+  \cup (IF ev.out = "ok" /\ ev.t \notin {"CompositeFeatureObserver", "ResidualGraphUpdater"}
         THEN ObsListDiff("D:drift-create",
                          ObsCreate(T.inst, prev.core, T.filt, prev.obs, ev.t, Rng(ev.fts)), post.obs)
         ELSE {})
@@ -295,6 +321,34 @@ CreateObsClauses(T, prev, ev, post) ==
 FreshRunClauses(T, prev, ev, post) ==
        If(ev.core # prev.core, {C("C12:core-differs-from-fresh-run")})
   \cup ObsListDiff("C12:differs-from-fresh-run", ev.obs, prev.obs)
+
+(* --- C16: graph builders and the solved disjunctive graph -------------------- *)
+GraphShapeClauses(b, I, ev, wantPairs) ==
+    LET E == {<<ev.edges[i][1], ev.edges[i][2]>> : i \in DOMAIN ev.edges} IN
+       If([i \in DOMAIN ev.nodes |-> <<ev.nodes[i][2], ev.nodes[i][3]>>] # GraphNodes(b, I)
+          \/ \E i \in DOMAIN ev.nodes : ev.nodes[i][1] # i, {Tag("C16:nodes", b)})
+  \cup If(wantPairs \ E # {}, {Tag("C16:edges-missing", b)})
+  \cup If(E \ wantPairs # {}, {Tag("C16:edges-extra", b)})
+  \cup If(~NoDup(ev.edges), {Tag("C16:edges-duplicated", b)})
+  \cup If(\E i \in DOMAIN ev.edges : <<ev.edges[i][1], ev.edges[i][2]>> \in wantPairs /\ ~EdgeTypeOK(b, I, ev.edges[i]),
+          {Tag("C16:edge-type", b)})
+GraphClauses(T, prev, ev, post) ==
+    IF ev.out # "ok" THEN {Tag("C16:builder-raised", <<ev.builder, ev.out>>)}
+    ELSE GraphShapeClauses(ev.builder, T.inst, ev, GraphPairs(ev.builder, T.inst))
+         \cup If(post.core # prev.core \/ ~post.instok, {C("C16:builder-changed-state")})
+SolvedClauses(T, prev, ev, post) ==
+    LET I == T.inst  sch == ev.sched
+        E == {<<ev.edges[i][1], ev.edges[i][2]>> : i \in DOMAIN ev.edges}
+        N == NumOps(I) + 2
+    IN IF ev.out # "ok" THEN {Tag("C16:solved-raised", ev.out)}
+       ELSE GraphShapeClauses("solved", I, ev, SolvedPairs(I, sch))
+       \cup (IF PositiveDurations(I) /\ Complete(I, sch) /\ Feasible(I, sch)
+             THEN   If(~Acyclic(E, N) \/ ~ev.is_dag, {C("C16:solved-cyclic")})
+               \cup If(Acyclic(E, N) /\ LongestPath(I, E) > MakespanDef(I, sch), {C("C16:longest-path-exceeds-makespan")})
+               \cup If(Acyclic(E, N) /\ SemiActive(I, sch)
+                       /\ (LongestPath(I, E) # MakespanDef(I, sch) \/ ev.longest # MakespanDef(I, sch)),
+                       {C("C16:longest-path-differs-from-makespan")})
+             ELSE {})
 
 KindsOf(kinds, subs) == [i \in DOMAIN subs |-> IF subs[i] = 0 THEN "other" ELSE kinds[subs[i]]]
 
@@ -334,6 +388,8 @@ DClauses(T, l, prev, post) ==
            [] ev.a = "SolverCall"  -> SolverCallClauses(T, prev, ev, post)
            [] ev.a = "BestFiltered" -> BestFilteredClauses(T, prev, ev, post)
            [] ev.a = "CpSat"       -> CpSatClauses(T, prev, ev, post)
+           [] ev.a = "Graph"       -> GraphClauses(T, prev, ev, post)
+           [] ev.a = "Solved"      -> SolvedClauses(T, prev, ev, post)
            [] ev.a = "CreateObs"   -> CreateObsClauses(T, prev, ev, post)
            [] ev.a = "FreshRun"    -> FreshRunClauses(T, prev, ev, post)
            [] ev.a = "Replay"      -> ReplayClauses(T, prev, ev, post)
